@@ -139,7 +139,7 @@ class Outcome:
     self.holders = []       # containers this op writes into
 
 
-def apply_op(roots, op, allow_move=True, direct_inplace=False, prebuilt=None):
+def apply_op(roots, op, allow_move=True, direct_inplace=False, prebuilt=None, builder=None):
   """Applies one op to the forest `roots` (list, mutated for new/moved roots)."""
   if not isinstance(op, dict) or not isinstance(op.get('op'), str):
     raise core.InvalidCase(op)
@@ -181,11 +181,15 @@ def apply_op(roots, op, allow_move=True, direct_inplace=False, prebuilt=None):
       out.used_src = True
       if cand.sym_parent is None:
         moved_root = cand
+  sv_flag = bool(_get(op, 'sv'))
+  _b = builder if builder is not None else (lambda x: values.build(x, symbolic=sv_flag))
+  # rebind(..., skip_notification=True) when the op asks for it
+  rkw = {'skip_notification': True} if _get(op, 'sk') else {}
   if not out.used_src:
     if prebuilt is not None:
       val = prebuilt()     # built by the caller outside any scope it has entered
     else:
-      val = values.build(_get(op, 'v'), symbolic=bool(_get(op, 'sv')))
+      val = _b(_get(op, 'v'))
 
   def as_list(v):
     if isinstance(v, list):
@@ -264,11 +268,11 @@ def apply_op(roots, op, allow_move=True, direct_inplace=False, prebuilt=None):
       elif name == 'rebind_l':
         idx = abs(i) if m % 2 else i
         if m in (0, 1):
-          n.rebind({idx: val})
+          n.rebind({idx: val}, **rkw)
         elif m in (2, 3):
-          n.rebind({idx: pg.Insertion(val)})
+          n.rebind({idx: pg.Insertion(val)}, **rkw)
         elif m == 4:
-          n.rebind({idx: pg.MISSING_VALUE})
+          n.rebind({idx: pg.MISSING_VALUE}, **rkw)
         else:
           # a batch over this list mixing replacements, insertions and deletions
           def item(mode, vv):
@@ -280,8 +284,8 @@ def apply_op(roots, op, allow_move=True, direct_inplace=False, prebuilt=None):
             ei = _int(e, 'i') % (len(n) + 1)
             if ei not in upd:
               upd[ei] = item(_int(e, 'm') % 3,
-                             values.build(e.get('v'), symbolic=bool(_get(op, 'sv'))))
-          n.rebind(upd)
+                             _b(e.get('v')))
+          n.rebind(upd, **rkw)
       elif name == 'dsetitem':
         n[key] = val
       elif name == 'dsetattr':
@@ -307,21 +311,21 @@ def apply_op(roots, op, allow_move=True, direct_inplace=False, prebuilt=None):
         n.clear()
       elif name == 'rebind_d':
         if m == 4:
-          n.rebind({key: pg.MISSING_VALUE})
+          n.rebind({key: pg.MISSING_VALUE}, **rkw)
         elif m == 5:
           ks = list(n.sym_keys())
           upd = {key: val}
           if ks:
             upd[ks[i % len(ks)]] = pg.MISSING_VALUE
-          n.rebind(upd)
+          n.rebind(upd, **rkw)
         else:
-          n.rebind({key: val})
+          n.rebind({key: val}, **rkw)
       elif name == 'osetattr':
         ks = list(n.sym_init_args.keys()) or ['x']
         setattr(n, ks[i % len(ks)], val)
       elif name == 'rebind_o':
         ks = [k for k, _ in n.sym_items()] or ['x']
-        n.rebind(**{ks[i % len(ks)]: val})
+        n.rebind(**{ks[i % len(ks)]: val}, **rkw)
       elif name in ('rebind_path', 'rebind_multi'):
         sub = preorder(n)
         locs, llocs = [], []
@@ -349,7 +353,7 @@ def apply_op(roots, op, allow_move=True, direct_inplace=False, prebuilt=None):
           return rel, vv
         if name == 'rebind_path':
           rel, vv = entry(i, m, val)
-          n.rebind({rel: vv})
+          n.rebind({rel: vv}, **rkw)
         else:
           upd = {}
           rel, vv = entry(i, m, val)
@@ -358,19 +362,20 @@ def apply_op(roots, op, allow_move=True, direct_inplace=False, prebuilt=None):
             if not isinstance(e, dict):
               raise core.InvalidCase(op)
             rel, vv = entry(_int(e, 'i'), _int(e, 'm'),
-                            values.build(e.get('v'), symbolic=bool(_get(op, 'sv'))))
+                            _b(e.get('v')))
             if rel not in upd:
               upd[rel] = vv
-          n.rebind(upd)
+          n.rebind(upd, **rkw)
       elif name == 'rebind_fn':
         want = m - 2
+        out.holders = list(preorder(n))     # may write anywhere below the target
 
         def fn(k, v, p):
           del p
           if isinstance(v, int) and not isinstance(v, bool) and v == want:
-            return copy.deepcopy(values.build(_get(op, 'v')))
+            return copy.deepcopy(values.build(_get(op, 'v')) if builder is None else builder(_get(op, 'v')))
           return v
-        n.rebind(fn, raise_on_no_change=False)
+        n.rebind(fn, raise_on_no_change=False, **rkw)
       elif name == 'clone':
         out.new_root = n.clone(deep=bool(m % 2))
       elif name == 'json':
